@@ -32,7 +32,7 @@ var vC15Dates = []vCivil{
 	{1900, 3, 1, 0, 0, 0},
 }
 
-var vC15Offsets = []int{330, -480, 1439, -1439, 1} // minutes
+var vC15Offsets = []int{330, -480, 1439, -1439, 1, 64, -127} // minutes (64 and 127: the one- / two-byte boundary of the offset VarInt)
 
 // fraction bases: around every byte boundary of the coefficient (sign-bit byte spill at 128, 32768, 8388608) and the ends
 var vC15Fracs = []int{0, 120, 250, 32760, 65530, 8388600, 16777210, 99999990, 999999984}
